@@ -48,8 +48,10 @@ func TestMain(m *testing.M) {
 		"wire-decoded or in-memory; an initial part of the schedule may arrive while the party is still in round0); checked after every delivery; " +
 		"non-trivial = at least one invalid (Byzantine) message is delivered before the k-th distinct valid one; distinct by (n, verifier, number of early messages, sequence of (sender, kind, transport))")
 	stats.Assume("all messages carry BlockHash = bh.Hash: Processor.OnMessageVerify routes by that field, so nothing else reaches this party")
-	stats.Assume("the verifier knows the share public key of every member of the group (JoinedGroupInfo.MemberSignPubkeyMap complete, registered through JoinedGroupStorage.JoinGroup/AddMemberSignPk); " +
-		"members whose key the node has not yet received are outside the property's domain")
+	stats.Assume("share public keys are registered through JoinedGroupStorage.JoinGroup/AddMemberSignPk; the verifier's own key and/or one other member's key may be missing (lost SignPubKey message). " +
+		"Validity of a share is decided by the harness from the bytes under the sender's REAL share key, independent of what the node has registered. A valid share of a member whose key the verifier " +
+		"does not know need not be counted (the unchanged tree ignores it); it must be counted when the key is registered. So: share set is a subset of the valid senders and holds at least min(k, countable) " +
+		"entries, countable = valid AND key registered; finalisation is required once k countable senders have arrived and happens exactly when the set holds k shares")
 	stats.Assume("validity of a message is decided from its bytes: BLS shares are unique (one G1 point verifies for a given key and message) and, on the current tree, have one canonical 64-byte encoding; " +
 		"the expected shares sk_i*H(m) and the expected group signature (sum of dealer secrets)*H(m) are computed with groupsig.Sign from the secret keys (C13 checks that primitive against a reference)")
 	stats.Assume("a wire message whose decoding fails (error, or panic recovered by ConsensusHandler.Handle) is dropped before it reaches the party; the decoder itself is the subject of C09/C10")
@@ -172,6 +174,10 @@ type instance struct {
 	expGroupSig         []byte
 	expGroupBeacon      []byte
 
+	registered   []bool // share public key of member i is in the verifier's joined-group record
+	missingOwn   bool
+	missingOther int // -1 = none
+
 	chain *chainStub
 	net   *netStub
 	party *logical.VerifC15Party
@@ -187,6 +193,12 @@ func short(b []byte) string {
 
 // buildInstance runs the node's DKG for n members and sets up one verifier node (member self).
 func buildInstance(t failer, src source, n int) *instance {
+	return buildInstanceKeys(t, src, n, -1, -1)
+}
+
+// buildInstanceKeys: ownMissing / otherMissing = 1 forces the verifier's own / one other member's share
+// public key to be absent from the verifier's joined-group record, 0 forces it present, -1 draws it.
+func buildInstanceKeys(t failer, src source, n int, ownMissing, otherMissing int) *instance {
 	in := &instance{n: n, k: model.Param.GetGroupK(n)}
 	if in.k < 1 || in.k > n {
 		t.Fatalf("GetGroupK(%d)=%d", n, in.k)
@@ -285,7 +297,22 @@ func buildInstance(t failer, src source, n int) *instance {
 	storage := access.VerifC15NewJoinedGroupStorage(&groupChainStub{kv: map[string][]byte{}})
 	jg := model.NewJoindGroupInfo(in.sks[in.self], in.gpk, gh)
 	storage.JoinGroup(jg, in.ids[in.self])
+	// node state: which share public keys the verifier has received (SignPubKey messages can be lost;
+	// the verifier's own entry is written only when its own message loops back)
+	in.missingOther = -1
+	in.missingOwn = src.Int("own_key_missing", 0, 2) == 0
+	if ownMissing >= 0 {
+		in.missingOwn = ownMissing == 1
+	}
+	if dm := src.Int("other_key_missing", 0, 4) == 0; otherMissing == 1 || otherMissing < 0 && dm {
+		in.missingOther = in.otherMember(src, "other_key_missing_who", in.self)
+	}
+	in.registered = make([]bool, n)
 	for i := 0; i < n; i++ {
+		if i == in.self && in.missingOwn || i == in.missingOther {
+			continue
+		}
+		in.registered[i] = true
 		storage.AddMemberSignPk(in.ids[i], in.gid, in.pks[i])
 	}
 	group_create.VerifC15Install(model.SelfMinerInfo{SecKey: in.sks[in.self], MinerInfo: model.MinerInfo{ID: in.ids[in.self]}}, storage, in.net)
@@ -335,9 +362,11 @@ var byzKinds = []string{
 	"honest", "other_hash", "other_hash", "other_hash", "other_hash_sig_bh", "bh_hash_sig_other",
 	"replay_member", "replay_block_share", "garbage_sig", "garbage_sig", "foreign_point_sig", "group_sig_as_share",
 	"beacon_other_value", "beacon_replay", "beacon_garbage", "beacon_over_block_hash", "swapped_shares",
+	"claim_verifier_replay", "claim_verifier_foreign_points", "claim_verifier_other_key", "claim_verifier_own_shares_swapped",
 }
 
-var outsiderKinds = []string{"outsider_own_key", "outsider_replay", "zero_id", "oversize_id", "padded_member_id"}
+var outsiderKinds = []string{"outsider_own_key", "outsider_replay", "zero_id", "oversize_id", "padded_member_id",
+	"claim_verifier_replay", "claim_verifier_foreign_points", "claim_verifier_other_key"}
 
 func garbage(src source, label string) []byte {
 	switch src.Int(label+"_g", 0, 4) {
@@ -410,6 +439,27 @@ func (in *instance) mkSpec(src source, kind string, b int, tag string) spec {
 		s.rnd = in.expBlock[b]
 	case "swapped_shares":
 		s.sig, s.rnd = in.expBeacon[b], in.expBlock[b]
+	// messages that name the VERIFIER itself as signer (the signer id is only a claimed field)
+	case "claim_verifier_replay": // another member's valid shares
+		j := in.otherMember(src, tag+"_j", in.self)
+		s.idBytes = in.ids[in.self].Serialize()
+		s.sig, s.rnd = in.expBlock[j], in.expBeacon[j]
+	case "claim_verifier_foreign_points": // arbitrary valid G1 points
+		s.idBytes = in.ids[in.self].Serialize()
+		fk := *groupsig.NewSeckeyFromBigInt(new(big.Int).SetBytes(src.Bytes(tag+"_fk", 32)))
+		s.sig, s.rnd = sign(fk, src.Bytes(tag+"_fm", 8)), sign(fk, src.Bytes(tag+"_fr", 8))
+	case "claim_verifier_other_key": // well-formed shares over bh.Hash / preBH.Random made with another key
+		s.idBytes = in.ids[in.self].Serialize()
+		var ok groupsig.Seckey
+		if b >= 0 && b != in.self {
+			ok = in.sks[b]
+		} else {
+			ok = *groupsig.NewSeckeyFromBigInt(new(big.Int).SetBytes(src.Bytes(tag+"_ok", 32)))
+		}
+		s.sig, s.rnd = sign(ok, in.hash.Bytes()), sign(ok, in.preBH.Random)
+	case "claim_verifier_own_shares_swapped": // the verifier's real points in the wrong fields
+		s.idBytes = in.ids[in.self].Serialize()
+		s.sig, s.rnd = in.expBeacon[in.self], in.expBlock[in.self]
 	case "outsider_own_key":
 		sk := *groupsig.NewSeckeyFromBigInt(new(big.Int).SetBytes(src.Bytes(tag+"_ok", 32)))
 		s.idBytes = groupsig.NewIDFromPubkey(*groupsig.GeneratePubkey(sk)).Serialize()
@@ -578,6 +628,7 @@ func genSchedule(in *instance, src source, t *rapid.T) schedule {
 type runner struct {
 	in        *instance
 	valid     map[int]bool // V: members whose valid message has been delivered
+	countable int          // |C|: those of V whose share public key the verifier has registered
 	frozen    []string     // share-holder ids at the moment |V| first reached k
 	finalised bool
 	log       []string
@@ -625,15 +676,19 @@ func (r *runner) check(step string) string {
 	if strings.Join(bids, ",") != strings.Join(rids, ",") {
 		return fmt.Sprintf("%s: block share holders %v differ from beacon share holders %v", step, bids, rids)
 	}
-	// every valid share is counted until the threshold is reached
-	want := len(r.valid)
-	if want > in.k {
-		want = in.k
+	// every valid share of a member with a registered key is counted until the threshold is reached
+	lo, hi := r.countable, len(r.valid)
+	if lo > in.k {
+		lo = in.k
 	}
-	if len(bids) != want {
-		return fmt.Sprintf("%s: %d valid distinct senders delivered (k=%d) but the share set holds %d shares %v", step, len(r.valid), in.k, len(bids), bids)
+	if hi > in.k {
+		hi = in.k
 	}
-	if len(r.valid) >= in.k {
+	if len(bids) < lo || len(bids) > hi {
+		return fmt.Sprintf("%s: %d valid distinct senders delivered, %d of them with a registered share key (k=%d), but the share set holds %d shares %v",
+			step, len(r.valid), r.countable, in.k, len(bids), bids)
+	}
+	if len(bids) >= in.k {
 		if r.frozen == nil {
 			r.frozen = bids
 		} else if strings.Join(r.frozen, ",") != strings.Join(bids, ",") {
@@ -641,7 +696,7 @@ func (r *runner) check(step string) string {
 		}
 	}
 	// proceed / finalise exactly when k valid messages have arrived
-	reached := len(r.valid) >= in.k
+	reached := len(bids) >= in.k // all held shares are valid (checked above), so k of them must finalise
 	done, errText := in.party.Drain()
 	if errText != "" {
 		return fmt.Sprintf("%s: the party failed: %s (valid senders so far %d, k=%d)", step, errText, len(r.valid), in.k)
@@ -672,8 +727,8 @@ func (r *runner) check(step string) string {
 		return ""
 	}
 	if !done {
-		return fmt.Sprintf("%s: %d valid distinct senders delivered (k=%d) but the party did not finish (round %d, checkSignature: %q)",
-			step, len(r.valid), in.k, in.party.RoundNumber(), in.party.CheckSignature())
+		return fmt.Sprintf("%s: %d valid shares held (k=%d) but the party did not finish (round %d, checkSignature: %q)",
+			step, len(bids), in.k, in.party.RoundNumber(), in.party.CheckSignature())
 	}
 	r.finalised = true
 	blk := <-in.chain.added // round2.Start hands the block to AddBlockOnChain in a goroutine it has started
@@ -725,15 +780,18 @@ func run(in *instance, sc schedule) (out outcome) {
 			return
 		}
 		v := in.validFor(s)
-		if len(r.valid) < in.k {
+		if r.countable < in.k {
 			if v < 0 {
 				out.byzBeforeThresh++
 			}
 			out.kindsBeforeThres = append(out.kindsBeforeThres, s.kind)
 		}
 		in.party.Update(msg)
-		if v >= 0 {
+		if v >= 0 && !r.valid[v] {
 			r.valid[v] = true
+			if in.registered[v] {
+				r.countable++
+			}
 		}
 	}
 	for i := 0; i < sc.nEarly; i++ {
@@ -801,7 +859,7 @@ func TestShareCounting(t *testing.T) {
 		shape := render(in, sc)
 		nt := ""
 		if out.byzBeforeThresh > 0 {
-			nt = fmt.Sprintf("%d|%d|%d|%s", n, in.self, sc.nEarly, strings.Join(shape, ","))
+			nt = fmt.Sprintf("%d|%d|%d|%v|%d|%s", n, in.self, sc.nEarly, in.missingOwn, in.missingOther, strings.Join(shape, ","))
 		}
 		classes := []string{fmt.Sprintf("n=%d,k=%d", n, in.k)}
 		if out.finalised {
@@ -822,6 +880,37 @@ func TestShareCounting(t *testing.T) {
 		default:
 			classes = append(classes, "byz_before_threshold:3+")
 		}
+		if in.missingOwn {
+			classes = append(classes, "verifier_own_key:missing")
+		} else {
+			classes = append(classes, "verifier_own_key:registered")
+		}
+		if in.missingOther >= 0 {
+			classes = append(classes, "other_member_key:missing")
+		} else {
+			classes = append(classes, "other_member_key:all_registered")
+		}
+		// a message naming the verifier as signer that arrives before the verifier's own valid share
+		ownAt, forgedAt := len(sc.msgs), -1
+		for i := range sc.msgs {
+			if in.validFor(&sc.msgs[i]) == in.self && i < ownAt {
+				ownAt = i
+			}
+			if forgedAt < 0 && strings.Contains(sc.msgs[i].kind, "claim_verifier") {
+				forgedAt = i
+			}
+		}
+		if forgedAt >= 0 && forgedAt < ownAt {
+			when := "late"
+			if forgedAt < sc.nEarly {
+				when = "early"
+			}
+			ks := "own_key_registered"
+			if in.missingOwn {
+				ks = "own_key_missing"
+			}
+			classes = append(classes, "forged_verifier_id_before_own_share:"+when+","+ks)
+		}
 		stats.Case(nt, classes...)
 		seen := map[string]bool{}
 		for _, k := range out.kindsBeforeThres {
@@ -838,7 +927,7 @@ func TestShareCounting(t *testing.T) {
 		}
 		stats.Count("messages_delivered", int64(len(sc.msgs)))
 		stats.Count("ask_sign_pk_calls", int64(in.net.asked))
-		stats.Sample(map[string]interface{}{"n": n, "k": in.k, "self": in.self, "early": sc.nEarly, "schedule": shape,
+		stats.Sample(map[string]interface{}{"n": n, "k": in.k, "self": in.self, "early": sc.nEarly, "schedule": shape, "own_key_missing": in.missingOwn, "other_key_missing": in.missingOther,
 			"valid_senders": out.validSenders, "finalised": out.finalised})
 		if out.fail != "" {
 			t.Fatalf("C15 violated: n=%d k=%d verifier=member %d block %s\nschedule: %v\n%s", n, in.k, in.self, in.hash.String(), shape, out.fail)
@@ -854,7 +943,7 @@ func TestShareCounting(t *testing.T) {
 func TestProbeOtherHashShare(t *testing.T) {
 	mk := func() (*instance, schedule) {
 		src := &fixedSrc{}
-		in := buildInstance(t, src, 5)
+		in := buildInstanceKeys(t, src, 5, 0, 0)
 		var sc schedule
 		bad := in.mkSpec(src, "other_hash", 0, "probe_bad")
 		bad.wire = true
@@ -909,7 +998,7 @@ func TestProbeOtherHashShare(t *testing.T) {
 func TestHonestOnly(t *testing.T) {
 	for n := 5; n <= 7; n++ {
 		src := &fixedSrc{ctr: uint64(1000 * n)}
-		in := buildInstance(t, src, n)
+		in := buildInstanceKeys(t, src, n, 0, 0)
 		var sc schedule
 		for i := 0; i < in.k; i++ {
 			sc.msgs = append(sc.msgs, in.mkSpec(src, "honest", i, fmt.Sprintf("h%d", i)))
@@ -917,6 +1006,33 @@ func TestHonestOnly(t *testing.T) {
 		out := run(in, sc)
 		if out.fail != "" || !out.finalised {
 			t.Fatalf("n=%d: %d honest messages: finalised=%v %s", n, in.k, out.finalised, out.fail)
+		}
+	}
+}
+
+// TestForgedVerifierIdExample: the verifier has no share public key registered for itself; a message that
+// names the verifier as signer (data hash = bh.Hash, arbitrary valid G1 points) arrives while the party is
+// still in round0 (and once more late), then every member's honest message. The forged shares must not be
+// counted and the block must finalise with the other members' shares.
+func TestForgedVerifierIdExample(t *testing.T) {
+	for _, kind := range []string{"claim_verifier_foreign_points", "claim_verifier_replay", "claim_verifier_other_key"} {
+		for early := 0; early <= 1; early++ {
+			src := &fixedSrc{ctr: 77}
+			in := buildInstanceKeys(t, src, 5, 1, 0)
+			var sc schedule
+			sc.msgs = append(sc.msgs, in.mkSpec(src, kind, -1, "forged"))
+			sc.nEarly = early
+			sc.msgs = append(sc.msgs, in.mkSpec(src, "honest", in.self, "own"))
+			for i := 0; i < in.n; i++ {
+				if i != in.self {
+					sc.msgs = append(sc.msgs, in.mkSpec(src, "honest", i, fmt.Sprintf("h%d", i)))
+				}
+			}
+			out := run(in, sc)
+			if out.fail != "" || !out.finalised {
+				t.Fatalf("C15 violated: %s early=%d verifier=member %d without its own share key registered: finalised=%v\nschedule: %v\n%s",
+					kind, early, in.self, out.finalised, render(in, sc), out.fail)
+			}
 		}
 	}
 }
